@@ -123,6 +123,7 @@ structure Inv (cs : List Chunk) (v : Variant) (c : Cfg) : Prop where
   main : c.handling = false → 16 ≤ hr c.prog → hr c.prog ≤ 25 → Main cs v c
   tempSome : 12 ≤ hr c.prog → hr c.prog ≤ 24 → c.fs.temp ≠ none
   termLate : 19 ≤ hr c.prog → hr c.prog ≤ 25 → c.term = true
+  renamed : hr c.prog = 25 → ∃ d, c.fs.final = some d ∧ d.get .md = some (.json c.md)
 
 
 /-! ## helpers for steps that pop the head item -/
@@ -194,6 +195,7 @@ theorem inv_init_low {cs : List Chunk} {v : Variant} {c : Cfg} (h : Inv cs v c) 
   · intro _ h16 _; simp at h16; omega
   · intro h12 _; simp at h12; omega
   · intro h19 _; simp at h19; omega
+  · intro h25; simp at h25; omega
 
 theorem shape_nil : Shape [] := by
   refine ⟨List.Pairwise.nil, by simp, ?_⟩
@@ -219,6 +221,7 @@ theorem inv_terminal {cs : List Chunk} {v : Variant} {c : Cfg} (h : Inv cs v c) 
   · intro _ _ hk; simp at hk
   · intro _ hk; simp at hk
   · intro _ hk; simp at hk
+  · intro hk; simp at hk
 
 theorem hr_handlerItems (hs : HandlerSpec) : 16 ≤ hr (handlerItems hs) ∧ hr (handlerItems hs) ≤ 17 := by
   unfold handlerItems
@@ -247,6 +250,7 @@ theorem inv_handler {cs : List Chunk} {v : Variant} {c : Cfg} (h : Inv cs v c) (
   · intro hh; simp at hh
   · intro _ _; exact ht
   · intro _ _; rfl
+  · intro h25; simp only at h25; omega
 
 theorem inv_failedFlag {cs : List Chunk} {v : Variant} {c : Cfg} (h : Inv cs v c) (f : Bool) :
     Inv cs v { c with failed := f } := by
@@ -268,6 +272,7 @@ theorem inv_failedFlag {cs : List Chunk} {v : Variant} {c : Cfg} (h : Inv cs v c
       m.noRead, m.nocmeta, m.unl, m.collectOnce, m.lateItems⟩
   · exact h.tempSome
   · exact h.termLate
+  · exact h.renamed
 
 /-- the saver thread gets an exception while it still has something to do -/
 theorem inv_fail {cs : List Chunk} {v : Variant} {c : Cfg} (h : Inv cs v c) (hne : c.prog ≠ []) : Inv cs v c.fail := by
@@ -554,6 +559,7 @@ theorem inv_init_mid {cs : List Chunk} {v : Variant} {c : Cfg} {x : Item} {rest 
     obtain ⟨t, ht, _⟩ := htemp
     simp [ht]
   · intro h19 _; simp only at h19; omega
+  · intro h25; simp only at h25; omega
 
 theorem rank_11_14_cases {x : Item} (h : 11 ≤ rank x) (h' : rank x ≤ 14) :
     x = .op (.mkdir .temp) ∨ x = .flushOpen .init ∨ x = .flushWrite .init ∨ x = .flushClose .init := by
@@ -911,7 +917,8 @@ theorem inv_late {cs : List Chunk} {v : Variant} {c' : Cfg} (hshape : Shape c'.p
     (hsynced : 23 ≤ hr c'.prog → hr c'.prog ≤ 24 → ∃ t, c'.fs.temp = some t ∧ t.get .md = some (.json c'.md))
     (hsafe : SafeFS cs c'.fs) (hhand : c'.handling = true → c'.term = true)
     (hmain : c'.handling = false → 16 ≤ hr c'.prog → hr c'.prog ≤ 25 → Main cs v c')
-    (htemp : hr c'.prog ≤ 24 → c'.fs.temp ≠ none) (hterm : 19 ≤ hr c'.prog → hr c'.prog ≤ 25 → c'.term = true) :
+    (htemp : hr c'.prog ≤ 24 → c'.fs.temp ≠ none) (hterm : 19 ≤ hr c'.prog → hr c'.prog ≤ 25 → c'.term = true)
+    (hren : hr c'.prog = 25 → ∃ d, c'.fs.final = some d ∧ d.get .md = some (.json c'.md)) :
     Inv cs v c' := by
   constructor
   · exact hshape
@@ -928,6 +935,7 @@ theorem inv_late {cs : List Chunk} {v : Variant} {c' : Cfg} (hshape : Shape c'.p
   · exact hmain
   · intro _ h24; exact htemp h24
   · exact hterm
+  · exact hren
 
 theorem rank_15_cases {x : Item} (h : rank x = 15) : x = .armed := rank_milestone_unique mem_milestones_armed h
 
@@ -956,7 +964,7 @@ theorem inv_sav_armed {cs : List Chunk} {v : Variant} {c c' : Cfg} (h : Inv cs v
         have : hr rest = rank y := by rw [he]; simp
         have := hpre y (by simp)
         omega
-    refine inv_late hsx.tail (by simp only; omega) (by simp [hw]) ?_ ?_ ?_ h.safe ?_ ?_ ?_ ?_
+    refine inv_late hsx.tail (by simp only; omega) (by simp [hw]) ?_ ?_ ?_ h.safe ?_ ?_ ?_ ?_ ?_
     · intro h18 _; simp only at h18; omega
     · intro h19 _; simp only at h19; omega
     · intro h23 _; simp only at h23; omega
@@ -968,5 +976,6 @@ theorem inv_sav_armed {cs : List Chunk} {v : Variant} {c c' : Cfg} (h : Inv cs v
       obtain ⟨t, ht, _⟩ := h.initTemp (by rw [hp]; simp [rank]) (by rw [hp]; simp [rank])
       simp [ht]
     · intro h19 _; simp only at h19; omega
+    · intro h25; simp only at h25; omega
 
 end Strax.FS
